@@ -16,7 +16,7 @@ _H = os.path.normpath(os.path.join(os.path.dirname(os.path.abspath(__file__)), "
 # time and memory than with full debug information
 HARNESS = {"src": "harness/c02.cpp", "flags": ["-g1"],
            "repo_srcs": ["libs/core/src/insert_extract_locale.cpp", "libs/core/src/exception.cpp"] +
-                        [os.path.join(_H, f"c02_typed_{i}.cpp") for i in range(16)]}
+                        [os.path.join(_H, f"c02_typed_{i}.cpp") for i in range(16)] + [os.path.join(_H, "c02_typed_rec.cpp")]}
 TIE = ("hand-written position-threading model (FcpptModel/Model/C02.lean) proved equal to the position-free PEG semantics, plus a model "
        "of the typed result plumbing (Model/C02/Typed.lean) proved type-preserving; differential correspondence against grammars built at "
        "run time from the real fcppt::parse templates (universal value) AND against 314 statically typed instantiations (natural result "
@@ -680,8 +680,14 @@ def sys_ops(terms, maxlen, skips, stride=1, offset=0):
     return ops
 
 
+REC_GRAMMAR = "con:21.list.lit:x.ref:1.lit:y.lit:z;seq.seq.plus.cset:abc.lit:e.rec.ref:0"
+
+
 def typed_ops(maxlen):
-    ops = []
+    # the hand-written recursive typed grammar (harness/c02_typed_rec.cpp): all inputs over {a,e,x,y,z} resp. + the skipper's s
+    ops = [f"tenum cg E {REC_GRAMMAR} =aexyz {maxlen + 2}", f"tenum wg Ls {REC_GRAMMAR} =aexyzs {maxlen + 1}",
+           f"typed cg E {REC_GRAMMAR} =xabexzycexaexzzz", f"typed cg E {REC_GRAMMAR} =xaexbexcexzzzyaexzz",
+           f"typed wg Ls {REC_GRAMMAR} =sxsasesxszsysbsesxscsesxszszsz"]
     for i, (g, alpha, wide) in enumerate(typed_shapes()):
         ops.append(f"tenum c{'ph'[i % 2]} E {g} ={alpha} {maxlen}")
         if wide:
